@@ -30,6 +30,15 @@ What is a theorem here (about the models of Model/C01.lean) and what is not:
 * RESULTS HASH (part 3).  It is a function of Error, Data and Events only
   (`resultsHash_blind_to_gas_and_log`, `gas_not_covered_witness`) and, for an injective
   encoding and a collision-free list hash, determines them (`results_hash_covers`).
+* GAS INSIDE A MAP RANGE (part 2b).  This check found that the GasUsed reported for a
+  transaction running out of gas inside a loop that ranges over a map and charges gas per
+  entry depends on the map order (`unsorted_gas_used_counterexample`, numbers measured on
+  the real application) — the statement's "same gas used" clause is violated for such
+  out-of-gas transactions, while the out-of-gas verdict, the block gas and hence the app
+  hash are order-independent (`out_of_gas_order_independent`,
+  `block_gas_order_independent`).  `FinalizeRealmTransaction` has been fixed (sorted
+  first: `foreign_realm_gas_enumeration_independent`); `applyUnrestrictedAddrsChange` is
+  a known finding.
 * NOT a theorem: GOMAXPROCS / scheduling, the database backends, app-hash equality
   of the real multistore, gas.  Those are only checked by the differential replay of
   the real application across configurations (harness/cmd/c01).
@@ -193,36 +202,54 @@ theorem flush_enumeration_independent {σ : Type} (apply : σ → List Nat × Op
   sort_fold_perm (fun x : List Nat × Option (List Nat) => x.1) pathLe pathLe_total pathLe_trans pathLe_antisymm
     apply parent hp hnd
 
-/-! ## Part 2b — gas charged inside a map range (FINDING) -/
+/-! ## Part 2b — gas charged inside a map range
 
-/-- THE FULL STATEMENT for the loop at realm.go:569 (and every loop of its shape): the gas
-the transaction reports does not depend on the order in which the map was enumerated.
-REFUTED by `gas_used_order_independent_counterexample`. -/
-def gas_used_order_independent_statement : Prop :=
+Found by this check in two places: `FinalizeRealmTransaction` (gnovm/pkg/gnolang/realm.go,
+since fixed: the touched realms are sorted first) and `applyUnrestrictedAddrsChange`
+(tm2/pkg/sdk/auth/params.go, a known finding: still a plain range over a set). -/
+
+/-- The loop as it is now (touched foreign realms collected, sorted by path, then
+`SetPackageRealm` each): the whole outcome of the meter — the gas reported for the
+transaction included, also when it runs out of gas inside the loop — does not depend on
+the order in which the map was enumerated. -/
+theorem foreign_realm_gas_enumeration_independent (m : Meter) {e₁ e₂ : List (List Nat × Nat)}
+    (hp : e₁.Perm e₂) (hnd : (e₁.map (·.1)).Nodup) : chargeSorted m e₁ = chargeSorted m e₂ :=
+  sort_fold_perm (fun x : List Nat × Nat => x.1) pathLe pathLe_total pathLe_trans pathLe_antisymm
+    chargeStep (.ok m) hp hnd
+
+/-- …and it is the plain charging loop on the sorted realms. -/
+theorem chargeSorted_eq_chargeAll (m : Meter) (enum : List (List Nat × Nat)) :
+    chargeSorted m enum = chargeAll m ((enum.mergeSort fun x y => pathLe x.1 y.1).map (·.2)) :=
+  foldl_chargeStep _ m
+
+/-- WHAT THE SORT PREVENTS.  The statement "the reported gas does not depend on the
+enumeration order" for the loop WITHOUT the sort (the code before the fix).  Refuted by
+`unsorted_gas_used_counterexample`. -/
+def unsorted_gas_used_order_independent_statement : Prop :=
   ∀ (m : Meter) (c₁ c₂ : List Nat), m.consumed ≤ m.limit → c₁.Perm c₂ →
     gasUsed (chargeAll m c₁) = gasUsed (chargeAll m c₂)
 
-/-- PARTIAL, under the exact guard "the loop stays within the gas limit": then the meter
-ends in the same state whatever the order. -/
-theorem gas_used_order_independent_partial (m : Meter) {c₁ c₂ : List Nat} (hp : c₁.Perm c₂)
+/-- Without the sort, and within the gas limit, the order did not matter… -/
+theorem unsorted_within_limit_order_independent (m : Meter) {c₁ c₂ : List Nat} (hp : c₁.Perm c₂)
     (h : m.consumed + c₁.sum ≤ m.limit) : chargeAll m c₁ = chargeAll m c₂ := by
   rw [chargeAll_in_budget c₁ m h, chargeAll_in_budget c₂ m (by rw [← hp.sum_nat]; exact h), hp.sum_nat]
 
-/-- WHETHER the transaction runs out of gas in the loop does not depend on the order… -/
+/-- …nor did it matter for WHETHER the transaction runs out of gas… -/
 theorem out_of_gas_order_independent (m : Meter) {c₁ c₂ : List Nat} (h0 : m.consumed ≤ m.limit)
     (hp : c₁.Perm c₂) : isOutOfGas (chargeAll m c₁) = isOutOfGas (chargeAll m c₂) := by
   rw [isOutOfGas_iff c₁ m h0, isOutOfGas_iff c₂ m h0, hp.sum_nat]
 
-/-- …nor does what the BLOCK gas meter is charged (`GasConsumedToLimit`): the app hash
-is not affected by the finding. -/
+/-- …nor for what the BLOCK gas meter is charged (`GasConsumedToLimit`): the app hash was
+never affected. -/
 theorem block_gas_order_independent (m : Meter) {c₁ c₂ : List Nat} (h0 : m.consumed ≤ m.limit)
     (hp : c₁.Perm c₂) : gasToLimit (chargeAll m c₁) = gasToLimit (chargeAll m c₂) := by
   rw [gasToLimit_eq c₁ m h0, gasToLimit_eq c₂ m h0, hp.sum_nat]
 
-/-- COUNTEREXAMPLE, with the numbers measured on the real application (corpus/C01/02):
+/-- …but the GasUsed reported for a transaction that ran out of gas inside the loop did:
+with the numbers measured on the real application before the fix (corpus/C01/02:
 3380663 gas consumed before the loop, the two realm records cost 25224 and 25190, gas
-limit 3400000: GasUsed is 3405887 in one order and 3405853 in the other. -/
-theorem gas_used_order_independent_counterexample : ¬ gas_used_order_independent_statement := by
+limit 3400000) it was 3405887 in one order and 3405853 in the other. -/
+theorem unsorted_gas_used_counterexample : ¬ unsorted_gas_used_order_independent_statement := by
   intro h
   have := h { limit := 3400000, consumed := 3380663 } [25224, 25190] [25190, 25224] (by decide)
     (List.Perm.swap _ _ _)
@@ -231,7 +258,20 @@ theorem gas_used_order_independent_counterexample : ¬ gas_used_order_independen
 
 example : gasUsed (chargeAll { limit := 3400000, consumed := 3380663 } [25224, 25190]) = 3405887 := by decide
 example : gasUsed (chargeAll { limit := 3400000, consumed := 3380663 } [25190, 25224]) = 3405853 := by decide
-/-- the guard of the partial theorem is satisfiable (the full-gas run of the witness) -/
+/-- with the sort both enumerations report the same (ra sorts before rb) -/
+example : chargeSorted { limit := 3400000, consumed := 3380663 } [([1], 25224), ([2], 25190)] =
+    chargeSorted { limit := 3400000, consumed := 3380663 } [([2], 25190), ([1], 25224)] :=
+  foreign_realm_gas_enumeration_independent _ (List.Perm.swap _ _ _) (by decide)
+/-- THE SAME DEFECT, STILL IN THE TREE: `applyUnrestrictedAddrsChange` (tm2/pkg/sdk/auth/
+params.go) ranges over the set of added addresses and charges one account read and one
+account write per entry.  Numbers measured on the real application (corpus/C01/03):
+1153595 consumed before the loop; u1: read 2516, write 249700; u2: read 1445, write
+248818; gas limit 1300000 — GasUsed 1405811 when the map yields u1 first, 1403858 when it
+yields u2 first. -/
+example : gasUsed (chargeAll { limit := 1300000, consumed := 1153595 } [2516, 249700, 1445, 248818]) = 1405811 := by decide
+example : gasUsed (chargeAll { limit := 1300000, consumed := 1153595 } [1445, 248818, 2516, 249700]) = 1403858 := by decide
+example : [2516, 249700, 1445, 248818].Perm [1445, 248818, 2516, 249700] := by decide
+/-- the guard of `unsorted_within_limit_order_independent` is satisfiable (the full-gas run) -/
 example : (3380663 : Nat) + [25224, 25190].sum ≤ 300000000 := by decide
 
 /-! ## Part 3 — the results hash -/
